@@ -10,12 +10,20 @@
 #include <sstream>
 
 CaseSource source_for(const std::string &profile, const std::string &prop, int tier); // checks.cc
+int special_replay(const JVal &root, bool verbose);                                       // special.cc
 
 std::string
 verif_dir()
 {
         const char *e = getenv("VERIF_DIR");
         return e ? e : "/verif";
+}
+// where evidence and replay files go (mutant trials redirect this so that /verif/evidence is not touched)
+std::string
+out_dir()
+{
+        const char *e = getenv("VERIF_OUT");
+        return e ? std::string(e) : verif_dir();
 }
 
 // ------------------------------------------------------------------ known findings
@@ -245,6 +253,8 @@ replay_file(const std::string &path, bool verbose)
         }
         JP v = json_parse(txt);
         Plan p;
+        if (v && v->get("case"))
+                return special_replay(*v, verbose);
         if (!v || !plan_from_json(txt, p)) {
                 fprintf(stderr, "replay: cannot parse %s\n", path.c_str());
                 return 2;
@@ -372,8 +382,10 @@ run_batch(const BatchCfg &cfg, const CaseSource &src, JW *extra_cov)
 {
         const double t0 = now_s();
         const std::string vd = verif_dir();
-        mkdir((vd + "/evidence").c_str(), 0755);
-        mkdir((vd + "/replays").c_str(), 0755);
+        const std::string od = out_dir();
+        mkdir(od.c_str(), 0755);
+        mkdir((od + "/evidence").c_str(), 0755);
+        mkdir((od + "/replays").c_str(), 0755);
         mkdir((vd + "/.cache").c_str(), 0755);
         mkdir((vd + "/.cache/tmp").c_str(), 0755);
         std::vector<KnownFinding> known = load_known(vd + "/known_findings.json");
@@ -457,7 +469,7 @@ run_batch(const BatchCfg &cfg, const CaseSource &src, JW *extra_cov)
                                         }
                                         rec.v = *mv;
                                         char path[512];
-                                        snprintf(path, sizeof path, "%s/replays/%s-%llu-%s.json", vd.c_str(), cfg.prop.c_str(),
+                                        snprintf(path, sizeof path, "%s/replays/%s-%llu-%s.json", od.c_str(), cfg.prop.c_str(),
                                                  (unsigned long long) run_seed, v.oracle.c_str());
                                         write_file(path, replay_json(mp, *mv, (int) p.ops.size(), reruns));
                                         rec.replay = path;
@@ -639,7 +651,7 @@ run_batch(const BatchCfg &cfg, const CaseSource &src, JW *extra_cov)
         w.dbl("wall_s", wall);
         w.num("violations", n_viol);
         w.end_obj();
-        write_file(vd + "/evidence/" + cfg.prop + ".json", w.out);
+        write_file(od + "/evidence/" + cfg.prop + ".json", w.out);
 
         printf("%s %s: %llu runs, %llu library calls, %zu distinct (state,op) pairs, %.1f s, %d violation(s), %d known finding hit(s)\n",
                cfg.prop.c_str(), cfg.tier.c_str(), (unsigned long long) all.runs, (unsigned long long) all.ctr[CT_CALLS],
